@@ -35,8 +35,9 @@ import (
 )
 
 type c07Case struct {
-	Path string `json:"path"`
-	Size int    `json:"size"`
+	Path    string `json:"path"`
+	Size    int    `json:"size"`
+	ReadBuf int    `json:"read_buf,omitempty"` // consumer buffer per Read call on the ingress (0 = one buffer of Size bytes)
 }
 
 type c07World struct {
@@ -81,9 +82,15 @@ func c07Build() (*c07World, error) {
 	return w, nil
 }
 
-func (w *c07World) close() {
+// retire unregisters the targets synchronously (a new world registers the same addresses) and
+// tears the rest down in the background (a delivery may be stuck inside the code under test).
+func (w *c07World) retire() {
 	w.tgt.close()
 	w.ftgt.close()
+	go w.close()
+}
+
+func (w *c07World) close() {
 	for _, t := range []*nsTarget{w.tgt, w.ftgt} {
 		for i := 0; i < t.nconns(); i++ {
 			t.conn(i).Close()
@@ -100,7 +107,7 @@ func c07Run(r *vmc.Result, w *c07World, cs c07Case) {
 	ctx := context.Background()
 	rep := cs
 	fail := func(clause, what string) {
-		r.Violate("C07/"+clause+"/"+cs.Path, fmt.Sprintf("path %s size %d: %s", cs.Path, cs.Size, what), rep)
+		r.Violate("C07/"+clause+"/"+cs.Path, fmt.Sprintf("path %s size %d read-buffer %d: %s", cs.Path, cs.Size, cs.ReadBuf, what), rep)
 	}
 	before := len(nt.sentSnapshot())
 	data := nsPattern(byte(1+cs.Size%200), cs.Size)
@@ -138,7 +145,14 @@ func c07Run(r *vmc.Result, w *c07World, cs c07Case) {
 		} else {
 			tc.Write(data)
 			if cs.Size > 0 {
-				b, rerr, ok := nsReadN(nt, conn, cs.Size)
+				var b []byte
+				var rerr error
+				var ok bool
+				if cs.ReadBuf > 0 {
+					b, rerr, ok = nsReadChunks(nt, conn, cs.Size, cs.ReadBuf)
+				} else {
+					b, rerr, ok = nsReadN(nt, conn, cs.Size)
+				}
 				if !ok {
 					fail("bytes-never-arrived", "reader still waiting although the mesh is quiescent")
 					conn.Close()
@@ -213,7 +227,7 @@ func c07Run(r *vmc.Result, w *c07World, cs c07Case) {
 	r.Add("evaluations", 1)
 	r.Add("frames_checked", int64(len(frames)))
 	r.Nontrivial(fmt.Sprintf("%s|dataframes=%d", cs.Path, nData/2))
-	r.Outcome(fmt.Sprintf("%s|%d|%d", cs.Path, cs.Size, nData))
+	r.Outcome(fmt.Sprintf("%s|%d|%d|%d", cs.Path, cs.Size, cs.ReadBuf, nData))
 }
 
 func c07Sizes(thorough bool) []int {
@@ -263,7 +277,7 @@ func TestVerif_C07(t *testing.T) {
 	if err != nil {
 		t.Fatal(err)
 	}
-	defer func() { go w.close() }()
+	defer func() { w.retire() }()
 	var rp c07Case
 	if r.ReplayInto(&rp) {
 		c07Run(r, w, rp)
@@ -282,18 +296,39 @@ func TestVerif_C07(t *testing.T) {
 				continue
 			}
 			nv := r.NumViolations()
-			c07Run(r, w, c07Case{p, s})
+			c07Run(r, w, c07Case{p, s, 0})
 			if w.nt.dirty || r.NumViolations() > nv {
 				// a failed case may leave frames in flight or a blocked delivery: start from a fresh mesh
-				go w.close()
+				w.retire()
 				if w, err = c07Build(); err != nil {
 					t.Fatal(err)
 				}
 			}
 		}
 	}
-	r.Sample(c07Case{"tcp-up", 16357})
-	r.Sample(c07Case{"download", 32712})
+	// consumer buffers smaller than a frame on the ingress read side (partial reads of one decrypted frame)
+	for _, p := range []string{"tcp-down", "fwd-down"} {
+		for _, s := range []int{100, 16356, 16357, 40000} {
+			for _, k := range vmc.Pick(r, []int{1, 7, 1500, 4096, 8192}, []int{1, 2, 7, 512, 1500, 4096, 5000, 8192, 16355, 16356, 20000}) {
+				if r.Expired() {
+					break
+				}
+				if k == 1 && s > 20000 && !r.Thorough() {
+					continue
+				}
+				nv := r.NumViolations()
+				c07Run(r, w, c07Case{p, s, k})
+				if w.nt.dirty || r.NumViolations() > nv {
+					w.retire()
+					if w, err = c07Build(); err != nil {
+						t.Fatal(err)
+					}
+				}
+			}
+		}
+	}
+	r.Sample(c07Case{"tcp-up", 16357, 0})
+	r.Sample(c07Case{"download", 32712, 0})
 	if err := r.Finish(); err != nil {
 		t.Fatal(err)
 	}
